@@ -4,6 +4,7 @@ import Proofs.ArchNet
 import Proofs.ArchGenEq
 import Proofs.ArchKernelSpatial
 import Proofs.KernelGenEq
+import Proofs.MultiInputGenEq
 
 /-!
 # C03 — architecture mutations keep every network valid, bounded and rebuildable
@@ -1056,5 +1057,177 @@ example : EvolvableCNN.remove_channel (cnnWitness.toGen [] []) (some 0) (some 1)
   decide
 
 end source_translation
+
+/-! ## `EvolvableMultiInput`: latent mutations and the input width of `final_dense`
+   (over the definitions generated from agilerl/modules/multi_input.py by harness/py2lean_multiinput.py) -/
+
+section multiinput
+
+theorem multiNet_keys (obs : SubSpaces) (vec : List String) :
+    ∀ e ∈ obs.filterMap (fun e => (e.2.extractor vec e.1).map (fun c => (e.1, c))), e.1 ∈ obs.map Prod.fst := by
+  intro e he
+  simp only [List.mem_filterMap, Option.map_eq_some_iff] at he
+  obtain ⟨a, ha, c, _, rfl⟩ := he
+  exact List.mem_map_of_mem ha
+
+theorem multiVec_keys (r : Bool) (obs : SubSpaces) :
+    ∀ k ∈ (multiVecSpaces r obs).map Prod.fst, k ∈ obs.map Prod.fst := by
+  intro k hk
+  simp only [multiVecSpaces, List.mem_map, List.mem_filter] at hk ⊢
+  obtain ⟨a, ⟨ha, _⟩, rfl⟩ := hk
+  exact ⟨a, ha, rfl⟩
+
+/-- (iii) what `forward` concatenates (one latent vector per module kept in `extracted_features`, then the
+    vector features: the vector MLP's output or the raw vector observations) is exactly as wide as `final_dense`
+    expects — for every list of sub-spaces, every latent width, both values of `vector_space_mlp` and
+    `recurrent`, when the vector MLP's name is not a key of the space -/
+theorem C03_multiinput_forward_width (r mlp : Bool) (name : String) (lat : Int) (obs : SubSpaces)
+    (hn : name ∉ obs.map Prod.fst) :
+    multiForwardWidth r mlp name lat obs = multiFinalIn r mlp name lat obs := by
+  have hvec : name ∉ (multiVecSpaces r obs).map Prod.fst := fun h => hn (multiVec_keys r obs name h)
+  unfold multiForwardWidth multiFinalIn multiLatentMods multiNet
+  cases mlp
+  · rw [sum_map_const]; simp
+  · have hk := multiNet_keys obs ((multiVecSpaces r obs).map Prod.fst)
+    simp only [if_true, List.filter_append, List.filter_filter, sum_map_const, Bool.true_and]
+    have h1 : List.filter (fun e : String × String => !((multiVecSpaces r obs).map Prod.fst).contains e.1)
+        [(name, "EvolvableMLP")] = [(name, "EvolvableMLP")] := by
+      simp [hvec]
+    have h2 : List.filter (fun e : String × String => !(e.1 == name) && !((multiVecSpaces r obs).map Prod.fst).contains e.1)
+        [(name, "EvolvableMLP")] = [] := by simp
+    have h3 : ∀ A : List (String × String), (∀ e ∈ A, e.1 ∈ obs.map Prod.fst) →
+        List.filter (fun a : String × String => !(a.1 == name) && !((multiVecSpaces r obs).map Prod.fst).contains a.1) A =
+        List.filter (fun e : String × String => !((multiVecSpaces r obs).map Prod.fst).contains e.1) A := by
+      intro A hA
+      apply List.filter_congr
+      intro e he
+      have : e.1 ≠ name := fun h => hn (h ▸ hA e he)
+      simp [this]
+    rw [h1, h2, h3 _ hk]
+    simp [Int.mul_add]
+
+/-- (i) REBUILDABILITY: `recreate_network`, run on the object `__init__` built after its `latent_dim` was set to
+    ANY value, gives `final_dense` the input width (and `feature_net` the modules) that `__init__` computes from the
+    same description with that latent width — for every list of sub-spaces, both `vector_space_mlp`, both
+    `recurrent` -/
+theorem C03_source_translation_multiinput_rebuild (obs : SubSpaces) (no lat lat' lo hi : Int) (mlp r : Bool)
+    (name : String) :
+    let s0 := MultiInputGen.init (SubSpaces.toGen obs) no lat mlp r lo hi name
+    let s1 := MultiInputGen.recreate_network { s0 with latent_dim := lat' }
+    let s2 := MultiInputGen.init (SubSpaces.toGen obs) no lat' mlp r lo hi name
+    s1.final_dense = s2.final_dense ∧ s1.feature_net = s2.feature_net ∧
+    s1.final_dense = (multiFinalIn r mlp name lat' obs, no) := by
+  intro s0 s1 s2
+  have h : s1 = MultiInputGen.recreate_network
+      { MultiInputGen.init (SubSpaces.toGen obs) no lat mlp r lo hi name with latent_dim := lat' } := rfl
+  rw [gen_init_eq, gen_recreate_network_eq _ obs ⟨rfl, rfl, rfl⟩] at h
+  have h2 : s2 = _ := gen_init_eq obs no lat' lo hi mlp r name
+  rw [h, h2]
+  exact ⟨rfl, rfl, rfl⟩
+
+/-- the width of `final_dense` at construction, spelled out: one latent vector per latent module plus the raw
+    vector dims unless they go through the vector MLP = what `forward` concatenates -/
+theorem C03_source_translation_multiinput_width_sum (obs : SubSpaces) (no lat lo hi : Int) (mlp r : Bool)
+    (name : String) (hn : name ∉ obs.map Prod.fst) :
+    (MultiInputGen.init (SubSpaces.toGen obs) no lat mlp r lo hi name).final_dense =
+      (lat * ((multiLatentMods r mlp name obs).length : Int) + (if mlp then 0 else multiVecDims r obs), no) ∧
+    (MultiInputGen.init (SubSpaces.toGen obs) no lat mlp r lo hi name).final_dense =
+      (multiForwardWidth r mlp name lat obs, no) := by
+  rw [gen_init_eq, C03_multiinput_forward_width r mlp name lat obs hn]
+  exact ⟨rfl, rfl⟩
+
+/-- (ii) the latent mutations = the model's `Latent.step`, for every argument (explicit / drawn) -/
+theorem C03_source_translation_multiinput_latent_step (l : Latent) (me : LatentMethod) (a : Args) (x : Flags) :
+    multiLatentCall me l.toMulti (argOpt x.xn a.n) a.n =
+      if latentDrawOK a x then
+        some ((l.step me a).1.toMulti, amountRet "numb_new_nodes" a, (l.step me a).2.name)
+      else none := gen_multi_latent_step_eq l me a x
+
+/-- (ii) bounds on the record of ints the code holds: every non-negative explicit argument, every draw -/
+theorem C03_source_translation_multiinput_latent_bounds (me : LatentMethod)
+    (s s' : MultiInputGen.EvolvableMultiInput.State) (arg : Option Int) (d0 : Int) (ret : Ret) (nm : String)
+    (hs : multiLatentOK s) (harg : ∀ v, arg = some v → 0 ≤ v) (h : multiLatentCall me s arg d0 = some (s', ret, nm)) :
+    multiLatentOK s' ∧ s'.min_latent_dim = s.min_latent_dim ∧ s'.max_latent_dim = s.max_latent_dim :=
+  gen_multi_latent_bounds me s s' arg d0 ret nm hs harg h
+
+/-- (ii) any finite sequence of latent mutations, through the generated methods: the model's run stays in bounds
+    and every step of it is what the generated method returns -/
+theorem C03_source_translation_multiinput_latent_chain (l : Latent) (ops : List (LatentMethod × Args))
+    (h : l.InBounds) :
+    (l.run ops).InBounds ∧
+    ∀ (t : Latent) (me : LatentMethod) (a : Args) (x : Flags), latentDrawOK a x = true →
+      multiLatentCall me t.toMulti (argOpt x.xn a.n) a.n =
+        some ((t.step me a).1.toMulti, amountRet "numb_new_nodes" a, (t.step me a).2.name) := by
+  refine ⟨C03_bounds_invariant_latent l ops h, ?_⟩
+  intro t me a x hd
+  rw [gen_multi_latent_step_eq, if_pos hd]
+
+/-- HARD LIMIT comparisons of the multi-input latent methods are strict: a step that would land ON the bound
+    is not applied (and is still reported) -/
+theorem C03_source_translation_multiinput_hard_limit (t : Latent) (a : Args) (x : Flags)
+    (hd : latentDrawOK a x = true) :
+    (¬ t.dim + a.n < t.maxDim →
+      MultiInputGen.EvolvableMultiInput.add_latent_node t.toMulti (argOpt x.xn a.n) a.n =
+        some (t.toMulti, [("numb_new_nodes", (a.n : Int))], "add_latent_node")) ∧
+    (¬ t.dim > t.minDim + a.n →
+      MultiInputGen.EvolvableMultiInput.remove_latent_node t.toMulti (argOpt x.xn a.n) a.n =
+        some (t.toMulti, [("numb_new_nodes", (a.n : Int))], "remove_latent_node")) := by
+  have e1 := gen_multi_latent_step_eq t .add a x
+  have e2 := gen_multi_latent_step_eq t .remove a x
+  simp only [multiLatentCall, hd, if_true, Latent.step, Applied.name, amountRet] at e1 e2
+  constructor
+  · intro h; rw [e1, if_neg h]
+  · intro h; rw [e2, if_neg h]
+
+/-- (i)+(ii)+(iii) together: mutate the latent width of a freshly built multi-input module through the generated
+    method, re-create the network: the new width is within the bounds and `final_dense` has the input width of a
+    fresh construction with that latent width, which is the width `forward` concatenates -/
+theorem C03_source_translation_multiinput_mutate_then_rebuild (obs : SubSpaces) (no lat lo hi : Int) (mlp r : Bool)
+    (name : String) (hn : name ∉ obs.map Prod.fst) (hb : lo ≤ lat ∧ lat ≤ hi)
+    (me : LatentMethod) (arg : Option Int) (d0 : Int) (harg : ∀ v, arg = some v → 0 ≤ v)
+    (s' : MultiInputGen.EvolvableMultiInput.State) (ret : Ret) (nm : String)
+    (h : multiLatentCall me { latent_dim := lat, max_latent_dim := hi, min_latent_dim := lo } arg d0 = some (s', ret, nm)) :
+    let s1 := MultiInputGen.recreate_network
+      { MultiInputGen.init (SubSpaces.toGen obs) no lat mlp r lo hi name with latent_dim := s'.latent_dim }
+    lo ≤ s'.latent_dim ∧ s'.latent_dim ≤ hi ∧
+    s1.final_dense = (MultiInputGen.init (SubSpaces.toGen obs) no s'.latent_dim mlp r lo hi name).final_dense ∧
+    s1.final_dense = (multiForwardWidth r mlp name s'.latent_dim obs, no) := by
+  intro s1
+  have hs : multiLatentOK { latent_dim := lat, max_latent_dim := hi, min_latent_dim := lo } := hb
+  have hb' := gen_multi_latent_bounds me _ s' arg d0 ret nm hs harg h
+  obtain ⟨⟨h1, h2⟩, h3, h4⟩ := hb'
+  simp only at h3 h4
+  have hr := C03_source_translation_multiinput_rebuild obs no lat s'.latent_dim lo hi mlp r name
+  simp only at hr
+  refine ⟨h3 ▸ h1, h4 ▸ h2, hr.1, ?_⟩
+  rw [C03_multiinput_forward_width r mlp name _ obs hn]
+  exact hr.2.2
+
+/-- the kinds the decorators declare: two NODE mutations, no LAYER mutation -/
+theorem C03_source_translation_multiinput_mutation_types :
+    kindNames MultiInputGen.EvolvableMultiInput.mutationTypes "NODE" = ["add_latent_node", "remove_latent_node"] ∧
+    kindNames MultiInputGen.EvolvableMultiInput.mutationTypes "LAYER" = [] := gen_multi_mutation_types
+
+/-- a dict space with an image, a sequence, a vector and a discrete sub-space -/
+def multiWitness : SubSpaces :=
+  [("img", { cls := "Box", ndim := 3, flatdim := 48 }), ("seq", { cls := "Box", ndim := 2, flatdim := 12 }),
+   ("vec", { cls := "Box", ndim := 1, flatdim := 5 }), ("d", { cls := "Discrete", ndim := 0, flatdim := 4 })]
+
+-- satisfiable: without / with the vector MLP, not recurrent / recurrent
+example : "vector_mlp" ∉ multiWitness.map Prod.fst := by decide
+example : multiFinalIn false false "vector_mlp" 16 multiWitness = 16 + (12 + 5 + 4) := by decide
+example : multiFinalIn true false "vector_mlp" 16 multiWitness = 32 + (5 + 4) := by decide
+example : multiFinalIn true true "vector_mlp" 16 multiWitness = 48 := by decide
+example : multiNet true true "vector_mlp" multiWitness =
+    [("img", "EvolvableCNN"), ("seq", "EvolvableLSTM"), ("d", "Flatten"), ("vector_mlp", "EvolvableMLP")] := by decide
+/-- `recreate_network` leaves `self.extracted_features_dim` at its construction value (`forward` only tests its
+    sign, which a positive latent width cannot change): the field is stale after a latent mutation -/
+theorem C03_source_translation_multiinput_stale_extracted_dim_witness :
+    (MultiInputGen.recreate_network
+      { MultiInputGen.init (SubSpaces.toGen multiWitness) 4 16 false true 8 128 "vector_mlp" with latent_dim := 24 }).extracted_features_dim = 32 ∧
+    (MultiInputGen.init (SubSpaces.toGen multiWitness) 4 24 false true 8 128 "vector_mlp").extracted_features_dim = 48 := by
+  decide
+
+end multiinput
 
 end Arch
